@@ -31,6 +31,16 @@ def build_replay():
                        capture_output=True, text=True, timeout=1800)
     if p.returncode != 0:
         return False, p.stderr[-3000:]
+    # the second replay binary (dependencies at opt-level 0; used by the `deep` enumeration for stack use of recursive code)
+    env['CARGO_TARGET_DIR'] = os.path.join(VERIF, '.cache', 'replay0-target')
+    lock0 = os.path.join(VERIF, 'replay0', 'Cargo.lock')
+    if not os.path.exists(lock0):
+        import shutil
+        shutil.copy(lock, lock0)
+    p = subprocess.run(['cargo', 'build', '--offline', '-q'], cwd=os.path.join(VERIF, 'replay0'), env=env,
+                       capture_output=True, text=True, timeout=1800)
+    if p.returncode != 0:
+        return False, p.stderr[-3000:]
     return True, ''
 
 
